@@ -220,11 +220,12 @@ def main(argv=None):
     for path, f in violations:
         print(f"   [{f['kind']}] {f['sub']} x{f['count']}: {f['msg'][:600]}")
         print(f"VIOLATION property={prop_id} replay={path}")
-    if violations:
-        return 1
     if harness_msgs:
         for m in harness_msgs[:10]:
             print("HARNESS-ERROR", m)
+    if violations:
+        return 1
+    if harness_msgs:
         return 2
     if len(nontriv) < 2 and not only:
         print("HARNESS-ERROR fewer than 2 distinct non-trivial cases")
